@@ -105,4 +105,21 @@ VARIANTS = [
     V("C15", "all init asts taken", GA, "            if ast_package_path in package_paths:\n                package_ast.append(ast)", "            package_ast.append(ast)", "C15.AST-FILTER"),
     V("C15", "unparse round trip", GA, "<<unparse>>", "", None),
     V("C15", "benign: set membership", GA, '("test" in file_path.parts or "tests" in file_path.parts or "docs" in file_path.parts)', '(not {"test", "tests", "docs"}.isdisjoint(file_path.parts))', None),
+    # ------------------------------------------------------------------ C02
+    V("C02", "delete keyword val", HELP, '        "val",\n', "", "C02.KW-TABLE"),
+    V("C02", "misspell yield", HELP, '        "yield",', '        "yeld",', "C02.KW-TABLE"),
+    V("C02", "no escaper for parameters", GEN, "            camel_case_name = _replace_if_safeds_keyword(camel_case_name)\n\n            # Create string and append to the list", "            # Create string and append to the list", "C02.NAME-PIPELINE"),
+    V("C02", "no escaper for attributes", GEN, "            attr_name_camel_case = _replace_if_safeds_keyword(attr_name_camel_case)\n", "", "C02.NAME-PIPELINE"),
+    V("C02", "no escaper for import names", GEN, "            name = _replace_if_safeds_keyword(name)\n", "", "C02.NAME-PIPELINE"),
+    V("C02", "escape before conversion", GEN, "                type_var_name = _convert_name_to_convention(type_var.name, self.naming_convention)\n                type_var_name = _replace_if_safeds_keyword(type_var_name)", "                type_var_name = _convert_name_to_convention(_replace_if_safeds_keyword(type_var.name), self.naming_convention)", "C02.NAME-PIPELINE"),
+    V("C02", "path escaped as one string", GEN, "            from_ = _replace_if_safeds_keyword_in_path(from_)", "            from_ = _replace_if_safeds_keyword(from_)", "C02.NAME-PIPELINE"),
+    V("C02", "class brace not closed", GEN, '        class_text += f"{class_indentation}}}"\n', "", "C02.DYCK"),
+    V("C02", "parameter paren not closed", GEN, '            f"({func_params}){result_string}"', '            f"({func_params}{result_string}"', "C02.DYCK"),
+    V("C02", "literal bracket not closed", GEN, """            return f"literal<{', '.join(types)}>\"""", """            return f"literal<{', '.join(types)}\"""", "C02.DYCK"),
+    V("C02", "imports before package", GEN, '        module_header += self._create_imports_string()\n\n        return f"{docstring}{module_header}{module_text}", package_info', '        module_header = self._create_imports_string() + module_header\n\n        return f"{docstring}{module_header}{module_text}", package_info', "C02.HEADER"),
+    V("C02", "todo block without final newline", GEN, '        return indentations + f"\\n{indentations}".join(todo_msgs) + "\\n"', '        return indentations + f"\\n{indentations}".join(todo_msgs)', "C02.TODO-LINES"),
+    V("C02", "docstring comment not closed", GEN, '        return f"{indentations}/**\\n{indentations} * {full_docstring}{indentations} */\\n"', '        return f"{indentations}/**\\n{indentations} * {full_docstring}{indentations}\\n"', "C02."),
+    V("C02", "unparse round trip", GEN, "<<unparse>>", "", None),
+    V("C02", "benign: extra keyword", HELP, '        "yield",', '        "yield",\n        "match",', None),
+    V("C02", "benign: temp around pipeline", GEN, "            camel_case_name = _replace_if_safeds_keyword(camel_case_name)\n\n            # Create string and append to the list", "            escaped_name = _replace_if_safeds_keyword(camel_case_name)\n            camel_case_name = escaped_name\n\n            # Create string and append to the list", None),
 ]
